@@ -41,6 +41,9 @@ OffExact(r, o) == HdrFits(In(r)) => (o.hdr = HdrAt(In(r)) /\ o.payload = Payload
 Offsets(r) ==
     \* a parsed package wrote In(r) back (that is C01); its offsets describe those bytes
     /\ (r.accepted /\ RoundTrip(r) => OffBasic(r, r.off, r.content_len) /\ OffExact(r, r.off))
+    \* ... also when the input is not what this specification takes for a package (a file that ends inside its main
+    \* header, say): if it was accepted and written back byte for byte, these are the bytes the offsets are about
+    /\ (r.accepted /\ r.written_len = r.input_len /\ r.tail_equal = TRUE /\ r.diff = <<>> => OffBasic(r, r.off, r.content_len))
     \* bytes written by an in-memory package (built / signed / cleared / re-written)
     /\ (Has(r, "off_mem") => /\ OffBasic(r, r.off_mem, IF Has(r, "content_len_mem") THEN r.content_len_mem ELSE r.content_len)
                               /\ OffExact(r, r.off_mem))
